@@ -460,16 +460,18 @@ Inductive run_result :=
 
 (* the reset at the end of dumpStack *)
 Definition reset_after_error (v : vm) : vm :=
-  let v1 := match assoc_get (v_mems v) 0 with
-            | Some m => set_mem v 0 (mReset m) false
+  (* children of main are dropped (not put on the free list); their memories die *)
+  let v1 := match assoc_get (v_ctxs v) 0 with
+            | Some c => fold_left (fun acc ch => delete_ctx 1000 acc (snd ch)) (c_children c) v
             | None => v
             end in
-  match assoc_get (v_ctxs v1) 0 with
-  | Some c =>
-      (* children of main are dropped (not put on the free list); their memories die *)
-      let v2 := fold_left (fun acc ch => delete_ctx 1000 acc (snd ch)) (c_children c) v1 in
-      set_ctx v2 0 {| c_ip := v_ncs v2; c_mid := 0; c_parent := None; c_children := []; c_tmp := c_tmp c |}
-  | None => v1
+  let v2 := match assoc_get (v_mems v1) 0 with
+            | Some m => set_mem v1 0 (mReset m) false
+            | None => v1
+            end in
+  match assoc_get (v_ctxs v2) 0 with
+  | Some c => set_ctx v2 0 {| c_ip := v_ncs v2; c_mid := 0; c_parent := None; c_children := []; c_tmp := c_tmp c |}
+  | None => v2
   end.
 
 Record regs := { r_ctx : Z; r_ip : Z; r_tmp : value }.
